@@ -632,3 +632,55 @@ theorem ops_coherent {K : Core σ} {M : Nat} {ks : Nat → Bytes} {Rep : σ → 
         rw [hv1, ih s blk hI hvs]
 
 end Glue
+
+namespace Glue
+open Spec
+variable {σ : Type}
+
+/-! ### cutting the byte stream into calls -/
+
+/-- successive calls (each already past its exhaustion check), state threaded through. -/
+def Wr.runUnchecked (K : Core σ) (w : Nat) : Wr σ → List Bytes → List Bytes × Wr σ
+  | s, [] => ([], s)
+  | s, p :: ps =>
+    let r := s.applyUnchecked K w p
+    let r2 := Wr.runUnchecked K w r.2 ps
+    (r.1 :: r2.1, r2.2)
+
+theorem runUnchecked_spec {K : Core σ} {M : Nat} {ks : Nat → Bytes} {Rep : σ → Nat → Prop}
+    (hK : CoreSpec K M ks Rep) (w : Nat) :
+    ∀ (pieces : List Bytes) (s : Wr σ) (blk : Nat), WInv K ks Rep s blk →
+      (M = 0 ∨ s.q K blk + pieces.flatten.length ≤ (M - 1) * K.bs) →
+      (Wr.runUnchecked K w s pieces).1.flatten
+        = xorB pieces.flatten (ksBytes (ksByte K.bs ks) (s.q K blk) pieces.flatten.length) ∧
+      ∃ blk', WInv K ks Rep (Wr.runUnchecked K w s pieces).2 blk' ∧
+        (Wr.runUnchecked K w s pieces).2.q K blk' = s.q K blk + pieces.flatten.length := by
+  intro pieces
+  induction pieces with
+  | nil => intro s blk hI _; exact ⟨by simp [Wr.runUnchecked, ksBytes], blk, hI, by simp [Wr.runUnchecked]⟩
+  | cons p ps ih =>
+    intro s blk hI hfit
+    have hlen : (p :: ps).flatten.length = p.length + ps.flatten.length := by simp
+    obtain ⟨ho, blk1, hI1, hq1⟩ := apply_spec hK w s blk p hI (by
+      rcases hfit with h | h
+      · exact Or.inl h
+      · right; rw [hlen] at h; omega)
+    obtain ⟨ho2, blk2, hI2, hq2⟩ := ih _ blk1 hI1 (by
+      rcases hfit with h | h
+      · exact Or.inl h
+      · right; rw [hlen] at h; rw [hq1]; omega)
+    refine ⟨?_, blk2, hI2, ?_⟩
+    · simp only [Wr.runUnchecked, List.flatten_cons]
+      rw [ho, ho2, hq1, List.length_append, ksBytes_add, xorB_append _ _ _ _ (by simp)]
+    · simp only [Wr.runUnchecked]
+      rw [hq2, hq1, hlen]; omega
+
+/-- **any cutting of the byte string into pieces (empty ones included) gives the bytes of one call on the
+    whole string, and leaves the same abstract position.** -/
+theorem pieces_eq_whole {K : Core σ} {M : Nat} {ks : Nat → Bytes} {Rep : σ → Nat → Prop}
+    (hK : CoreSpec K M ks Rep) (w : Nat) (pieces : List Bytes) (s : Wr σ) (blk : Nat) (hI : WInv K ks Rep s blk)
+    (hfit : M = 0 ∨ s.q K blk + pieces.flatten.length ≤ (M - 1) * K.bs) :
+    (Wr.runUnchecked K w s pieces).1.flatten = (s.applyUnchecked K w pieces.flatten).1 := by
+  rw [(runUnchecked_spec hK w pieces s blk hI hfit).1, (apply_spec hK w s blk pieces.flatten hI hfit).1]
+
+end Glue
